@@ -132,17 +132,17 @@ namespace vd
             float f = v.data<sqf::types::d_scalar, float>();
             if (std::isfinite(f) && std::floor(f) == f && std::fabs(f) < 1e9f)
             {
-                j.set("t", "n").set("v", (long long)f);
-                if (f == 0 && std::signbit(f)) { j.set("neg0", true); }
+                j.set("t", "n").set("n", (long long)f);
+
             }
             else
             {
-                j.set("t", "f").set("s", v.to_string_sqf());
+                j.set("t", "f").set("f", v.to_string_sqf());
             }
             return j;
         }
-        if (t == sqf::runtime::t_boolean()) { j.set("t", "b").set("v", v.data<sqf::types::d_boolean, bool>()); return j; }
-        if (t == sqf::runtime::t_string()) { j.set("t", "s").set("v", v.data<sqf::types::d_string, std::string>()); return j; }
+        if (t == sqf::runtime::t_boolean()) { j.set("t", "b").set("b", v.data<sqf::types::d_boolean, bool>()); return j; }
+        if (t == sqf::runtime::t_string()) { j.set("t", "s").set("s", v.data<sqf::types::d_string, std::string>()); return j; }
         if (t == sqf::runtime::t_array())
         {
             j.set("t", "a");
@@ -153,11 +153,11 @@ namespace vd
                 auto d = v.data<sqf::types::d_array>();
                 for (auto& e : *d) { arr.push(proj(e, depth + 1)); }
             }
-            j.set("v", arr);
+            j.set("a", arr);
             return j;
         }
-        if (t == sqf::runtime::t_code()) { j.set("t", "c").set("v", v.to_string_sqf()); return j; }
-        j.set("t", "o").set("k", std::string(t.to_string())).set("v", depth > 6 ? std::string("...") : v.to_string_sqf());
+        if (t == sqf::runtime::t_code()) { j.set("t", "c").set("c", v.to_string_sqf()); return j; }
+        j.set("t", "o").set("k", std::string(t.to_string())).set("o", depth > 6 ? std::string("...") : v.to_string_sqf());
         return j;
     }
 
